@@ -2,7 +2,7 @@
    Print Assumptions. *)
 From Coq Require Import ZArith List Bool.
 From Centro Require Import Base.LocalMaxGrid Model.LocalMax Spec.LocalMaxSpec
-  Proofs.LocalMaxShrink Proofs.LocalMaxIlm Proofs.LocalMaxReg Proofs.LocalMaxPlateau.
+  Proofs.LocalMaxShrink Proofs.LocalMaxIlm Proofs.LocalMaxReg Proofs.LocalMaxPlateau Proofs.LocalMaxFlood.
 Import ListNotations.
 Open Scope Z_scope.
 
@@ -126,6 +126,35 @@ Theorem C17_one_per_plateau : forall (label : list (list bool) -> list (list Z) 
               wf h w out /\ one_per_component (get2 false result) (get2 false out).
 Proof. exact one_per_plateau. Qed.
 Print Assumptions C17_one_per_plateau.
+
+(* the hypotheses of C17_one_per_plateau are discharged once and for all for executable instances:
+   the flood-fill labelling (minimum propagation to a fixpoint, fuel always sufficient, then
+   renumbering) numbers the 8-components of ANY well-formed set with 1..count ... *)
+Theorem C17_label_inst_ok : forall (h w : nat) (s : list (list bool)),
+  wf h w s -> shape2 s = (h, w) ->
+  labelling_ok (get2 false s) (get2 0 (fst (label_inst s))) (snd (label_inst s)).
+Proof. exact inst_labelling_ok. Qed.
+Print Assumptions C17_label_inst_ok.
+
+(* ... so the ties-not-allowed model built from the instances marks exactly one pixel of every
+   8-connected plateau whenever the ties-allowed pass returns - no hypotheses on library calls *)
+Theorem C17_one_per_plateau_inst : forall image mask st result,
+  regional_maximum_ties image mask st = Some result ->
+  exists out, regional_maximum label_inst ro_distance_inst maximum_position_inst image mask st false = Some out /\
+              wf (length image) (length (hd [] image)) out /\
+              one_per_component (get2 false result) (get2 false out).
+Proof. exact one_per_plateau_inst. Qed.
+Print Assumptions C17_one_per_plateau_inst.
+
+Theorem C17_one_per_plateau_inst_total : forall image mask (st : list (list bool)),
+  slices_okb image st = true ->
+  exists result out,
+    regional_maximum_ties image mask st = Some result /\
+    regional_maximum label_inst ro_distance_inst maximum_position_inst image mask st false = Some out /\
+    wf (length image) (length (hd [] image)) out /\
+    one_per_component (get2 false result) (get2 false out).
+Proof. exact one_per_plateau_inst_total. Qed.
+Print Assumptions C17_one_per_plateau_inst_total.
 
 (* the certificate checker evaluated on the implementation's ties-not-allowed output is sound:
    acceptance (for any certificate) implies exactly one marked pixel in every 8-connected
